@@ -188,6 +188,8 @@ impl Rt {
     }
 
     pub fn nsyms(&self) -> usize { self.syms.len() }
+    /// the decision prefix this path was started with
+    pub fn forced_prefix(&self) -> Vec<(Sig, u32)> { self.prefix_sigs.iter().cloned().zip(self.prefix.iter().cloned()).collect() }
 
     fn sym(&mut self, d: &[u8; 32]) -> usize {
         if let Some(i) = self.syms.get(d) { return *i; }
